@@ -512,6 +512,13 @@ def run_case(c, idx):
         return {"step_ids": [s.id for s in migrator._steps], "revision_ids": [r.id for r in migrator.revisions],
                 "latest": migrator.latest_revision.id}
     path = os.path.join(SCRATCH, "case_%d.sqlite" % idx)
+    name = path
+    if c.get("relpath"):
+        # a name relative to the configured output path (open_database prefixes conf.instance.output_path)
+        name = "c19_rel_%d/nested/case.sqlite" % idx
+        path = os.path.join(str(conf.instance.output_path), name)
+        if c["start"] != "fresh":
+            os.makedirs(os.path.dirname(path), exist_ok=True)
     if os.path.exists(path):
         os.remove(path)
     if c["start"] != "fresh":
@@ -519,7 +526,7 @@ def run_case(c, idx):
     out = {"initial": observe_file(path), "sessions": []}
     for s in c["sessions"]:
         del TRACE[:]
-        session = open_via(s["via"], path)
+        session = open_via(s["via"], name)
         rec = {"trace": classify_trace(), "after_open": observe_session(session), "ops": []}
         for op in s["ops"]:
             if op == "commit":
@@ -535,7 +542,7 @@ def run_case(c, idx):
         out["sessions"].append(rec)
     if c.get("features", True):
         # pre-existing rows written through raw INSERTs (ids w*) are not ORM fits with models; they stay readable as rows
-        out["features"] = exercise_features(path, c["nfits"])
+        out["features"] = exercise_features(name, c["nfits"])
         out["final"] = observe_file(path)
     os.remove(path)
     return out
